@@ -402,6 +402,34 @@ def translate_base(out_hashes):
             continue
         raise TranslateError(f"BaseStepper.__call__: statement outside the vocabulary: `{ast.unparse(s)[:80]}`")
 
+    # ---- which BaseStepper subclasses define their own step / step_fourier / __call__ ------------------------------
+    import glob as _glob
+    all_classes = {}
+    for f in sorted(_glob.glob(os.path.join(T.REPO, "exponax", "**", "*.py"), recursive=True)):
+        if os.sep + "viz" + os.sep in f:
+            continue
+        try:
+            tr_ = ast.parse(open(f).read())
+        except SyntaxError as e:
+            raise TranslateError(f"{os.path.relpath(f, T.REPO)}: {e}")
+        for c_ in ast.walk(tr_):
+            if isinstance(c_, ast.ClassDef):
+                bases = [b.id if isinstance(b, ast.Name) else (b.attr if isinstance(b, ast.Attribute) else "?") for b in c_.bases]
+                all_classes.setdefault(c_.name, (bases, [m.name for m in c_.body if isinstance(m, ast.FunctionDef)]))
+
+    def is_stepper(nm, seen=()):
+        if nm == "BaseStepper":
+            return True
+        if nm not in all_classes or nm in seen:
+            return False
+        return any(is_stepper(b, seen + (nm,)) for b in all_classes[nm][0])
+    overrides = []
+    for nm in sorted(all_classes):
+        if nm != "BaseStepper" and is_stepper(nm):
+            own = [m for m in ("step", "step_fourier", "__call__") if m in all_classes[nm][1]]
+            if own:
+                overrides.append((nm, own))
+
     # ---- build_ic_set, mean_metric ---------------------------------------------------------------------------
     upath = os.path.join(T.REPO, "exponax", "_utils.py")
     usrc = open(upath).read()
@@ -431,6 +459,7 @@ def translate_base(out_hashes):
         "attrs": [a_ for a_, _, _ in attr_defs],
         "derivative_operator_indexing": dop_args[3],
         "step_calls": [rhs.split()[0].split(".")[-1] for _, rhs in lines],
+        "overrides": {a_: ms_ for a_, ms_ in overrides},
     })
 
     # ---- emit ------------------------------------------------------------------------------------------------
@@ -470,6 +499,11 @@ def translate_base(out_hashes):
     chain = "\n  else ".join(f"if a.order == {k} then\n    -- {cm}\n    {body_}" for k, _, body_, cm in branches)
     t.append(f"def BaseStepper_step_fourier {{A : Type}} [Add A] [Sub A] [Mul A] [NatCast A] (a : BaseStepperArgs K)\n"
              f"    (entrywise : (K → K) → A) ({non_local[0]} : A → A) (u_hat : A) : Option A :=\n  {chain}\n  else none\n")
+    t.append("/-- the classes deriving from `BaseStepper` (found by walking exponax/**/*.py) that define their OWN `step`, `step_fourier`\n"
+             "    or `__call__`; for every other stepper class the three are the ones regenerated here, so its physical step IS\n"
+             "    `ifft ∘ step_fourier ∘ fft` — the premise under which sub-stepping in Fourier space (`RepeatedStepper`) equals repeated calls -/\n"
+             "def stepper_overrides : List (String × List String) :=\n  ["
+             + ", ".join(f"({q(a_)}, [{', '.join(q(m_) for m_ in ms_)}])" for a_, ms_ in overrides) + "]\n")
     t.append("/-! ## `BaseStepper.step`: the state has the shape the guard of `__call__` enforces, `(num_channels,) + (N,)*D` -/\n")
     sl = [f"def BaseStepper_step (a : BaseStepperArgs K) (step_fourier : MC K → Option (MC K)) (u : MC K) : Option (MC K) :="]
     depth = 1
